@@ -841,12 +841,15 @@ impl Runtime {
         if self.pc < self.entry_address {
             return Err(error!(IllegalDirect));
         }
+        let step = self.stack.pop()?;
+        let old_start = self.stack.pop()?;
+        let new_start = self.stack.pop()?;
         if !self.listing.indirect_errors.is_empty() {
             return Ok(Event::Errors(Arc::clone(&self.listing.indirect_errors)));
         }
-        let step = u16::try_from(self.stack.pop()?)?;
-        let old_start = u16::try_from(self.stack.pop()?)?;
-        let new_start = u16::try_from(self.stack.pop()?)?;
+        let step = u16::try_from(step)?;
+        let old_start = u16::try_from(old_start)?;
+        let new_start = u16::try_from(new_start)?;
         self.listing.renum(new_start, old_start, step)?;
         self.listing_changed();
         self.state = State::Stopped;
